@@ -90,8 +90,21 @@ func (c *Case) Exec(t *eng.T) {
 	}
 	set := pongo2.NewSet("c11", tl...)
 	if c.AddLater && len(tl) > 1 {
-		set = pongo2.NewSet("c11", tl[0])
+		// the caller builds two sets from ONE slice of loaders (with spare capacity) and extends each of them:
+		// what the other set adds is none of this set's business
+		ls := make([]pongo2.TemplateLoader, 1, 8)
+		ls[0] = tl[0]
+		set = pongo2.NewSet("c11", ls...)
+		other := pongo2.NewSet("c11-other", ls...)
 		set.AddLoader(tl[1:]...)
+		decoy := map[string]string{}
+		for _, files := range c.Loaders {
+			for k := range files {
+				decoy[k] = "FROM-THE-OTHER-SETS-LOADER"
+			}
+		}
+		other.AddLoader(px.NewMemLoader(decoy), px.NewMemLoader(decoy), px.NewMemLoader(decoy))
+		ls[0] = px.NewMemLoader(decoy) // the caller's slice is the caller's
 	}
 	for k, v := range c.Globals {
 		set.Globals[k] = v
